@@ -41,6 +41,8 @@ def shards(tier, prop):
         return [{'kind': 'py', 'module': 'vk.simh', 'fn': 'validate_fakepd', 'cond_timeout': 120, 'name': 'stub-validation:pandas'}]
     if prop in ('C12', 'C13', 'C19', 'C02', 'C03', 'C08'):
         out = timing_family(props, tier)
+        if prop in ('C12', 'C02', 'C09'):
+            out.append(G('two', [(0, 2), (2, 3), (3, 4), (0, 2), (0, 2), (1, 1), (2, 2), (5, 5)], props, alg='batch0split', machines=[10, 20]))
         if prop == 'C02':
             out += [G('two', R_TWO, props, alg=a) for a in ('reserve1', 'reserve2')]
             out.append(G('singles', R_SINGLES, props, alg='batch3'))
@@ -58,6 +60,8 @@ def shards(tier, prop):
         out.append(G('static', RS, props, T=400, alg='dynamic'))
         out.append(G('static', RS, props, T=400, alg='dynamic', edge=False, g2=2))
         out.append(G('static', RS, props, T=400, alg='dynamic', machines=[10, 20, 20], d1=2, d2=1))
+        # machine ids that share their last '_'-separated token across categories
+        out.append(G('static', RS, props, T=400, alg='dynamic', names=['cat0_m0', 'cat1_m0', 'cat1_m1']))
     elif prop == 'C01':
         for alg in ALG3:
             out.append(G('two', R_TWO, props, alg=alg))
